@@ -2,6 +2,7 @@ import ComposeVerif.Lemmas.Pipeline
 import ComposeVerif.Props.C01Pipeline
 import ComposeVerif.Props.C05
 import ComposeVerif.Gen.PipelineSource
+import ComposeVerif.Model.C01PipelineFS
 /-!
 # C01 — the composed pipeline has no panic outcome beyond the four reviewed sites
 
@@ -245,6 +246,163 @@ theorem loadY_skipValidation_never_panics (c : Cfg) (files : List (List Reset.YN
   have h2 := (loadY_panic_origin c files s h).1
   rw [hv] at h2; cases h2
 
+/-! ## round 6 — `extends` from OTHER FILES inside the composed function (`Model/C01PipelineFS.lean`)
+
+`getExtendsBaseFromFile` sends the referenced file through the same per-document pipeline under a cloned option set and
+then through `ResolveRelativePaths`; `PipeFS.fsOf` computes C05's file-system parameter from the raw documents of the
+files, so the hypothesis "loading the extended files does not panic" of C05's `applyExtends_ok_or_err_real` is no longer
+a hypothesis: it is PROVED from the totality of the per-document pipeline (`processDocs_only_panic_sites`) and of C12's
+`Paths.resolve`. -/
+section FS
+open CV.C01PipeFS
+
+/-- loading a referenced file the way `getExtendsBaseFromFile` does never panics — neither in `loadYamlFile` nor in
+`ResolveRelativePaths` — whatever the file holds -/
+theorem loadBase_never_panics (c : Cfg) (b : BaseFile) : (loadBase c b).panicSite? = none := by
+  unfold loadBase
+  split
+  · rfl
+  · rename_i s h; exact (processDocs_only_panic_sites _ _ _ _ h).elim
+  · split
+    · rfl
+    · rfl
+    · rfl
+    · rename_i s h; exact absurd h (Paths.resolve_never_panics _ _ _)
+  · rfl
+
+/-- the computed file system has no panicking entry: the hypothesis of C05's totality theorem, discharged -/
+theorem fsOf_never_panics (c : Cfg) : ∀ (bs : List BaseFile) (f s : String), ¬ Extends.fsPanics (fsOf c bs) f s
+  | [], f, s => by
+    intro ⟨r, hr, _⟩; simp [fsOf, Extends.fsLookup] at hr
+  | b :: bs, f, s => by
+    intro ⟨r, hr, hp⟩
+    simp only [fsOf, List.map_cons, Extends.fsLookup] at hr
+    split at hr
+    · injection hr with hr; subst hr
+      rw [loadBase_never_panics] at hp; cases hp
+    · exact fsOf_never_panics c bs f s ⟨r, hr, hp⟩
+
+/-- `ApplyExtends` with other files reachable: C05's `applyExtends_ok_or_err_real` on the computed file system -/
+theorem extendsStageFS_never_panics (c : Cfg) (bs : List BaseFile) (cfg : Val.KVs) (s : String) :
+    extendsStageFS c bs cfg ≠ .panic s := by
+  unfold extendsStageFS
+  split
+  · intro h; cases h
+  · intro h
+    have hp : Extends.applyExtends (Extends.realEnv c.mainFile (fsOf c bs)) cfg = .panic s := by
+      revert h; cases Extends.applyExtends (Extends.realEnv c.mainFile (fsOf c bs)) cfg <;> simp [ofExtendsFS]
+    have hfs := fsOf_never_panics c bs
+    unfold Extends.applyExtends at hp
+    split at hp
+    · rename_i S hS
+      rcases Extends.applyExtends_ok_or_err_real c.mainFile (fsOf c bs) hfs (order := Val.keys S) (dict := cfg)
+        (fun S' h' => by
+          rw [hS] at h'; injection h' with h'; injection h' with h'; subst h'
+          intro n
+          rw [Ne, Merge.lookup_eq_none_iff, Classical.not_not]) with ⟨o, ho⟩ | ⟨e, he⟩
+      · rw [ho] at hp; cases hp
+      · rw [he] at hp; cases hp
+    · rename_i hS
+      rcases Extends.applyExtends_ok_or_err_real c.mainFile (fsOf c bs) hfs (order := []) (dict := cfg)
+        (fun S' h' => absurd h' (hS S')) with ⟨o, ho⟩ | ⟨e, he⟩
+      · rw [ho] at hp; cases hp
+      · rw [he] at hp; cases hp
+
+theorem processDocFS_never_panics (c : Cfg) (bs : List BaseFile) (dict : Val) (cfg : Val.KVs) (s : String)
+    (h : processDocFS c bs dict cfg = .panic s) : False := by
+  unfold processDocFS at h
+  rcases bind_panic h with h1 | ⟨cfg', _, h⟩
+  · exact absurd h1 (interpStage_never_panics _ _ _)
+  rcases bind_panic h with h1 | ⟨cfg'', _, h⟩
+  · exact absurd h1 (extendsStageFS_never_panics _ _ _ _)
+  · exact mergeStages_never_panics _ _ _ _ h
+
+theorem processDocsFS_never_panics (c : Cfg) (bs : List BaseFile) : ∀ (docs : List Val.KVs) (dict : Val) (s : String),
+    processDocsFS c bs dict docs = .panic s → False
+  | [], _, _, h => by cases h
+  | d :: r, dict, s, h => by
+    unfold processDocsFS at h
+    split at h
+    · exact processDocsFS_never_panics c bs r _ s h
+    · cases h
+    · rename_i s' hd
+      cases h
+      exact processDocFS_never_panics c bs dict d s hd
+
+/-- **C01, composed, with cross-file `extends`**: for every configuration, option combination, list of documents AND
+every set of files an `extends.file` can name (any content), the composed function returns a model or a stage error;
+the only panic outcomes are the three `validation` sites, and only with validation on -/
+theorem loadFS_panic_origin (c : Cfg) (bs : List BaseFile) (docs : List Val.KVs) (s : String)
+    (h : loadFS c bs docs = .panic s) :
+    c.opts.skipValidation = false ∧ s ∈ reviewedSites := by
+  unfold loadFS at h
+  split at h
+  · cases h
+  rcases bind_panic h with h1 | ⟨d, _, h⟩
+  · unfold loadYamlModelFS at h1
+    rcases bind_panic h1 with h2 | ⟨d0, _, h2⟩
+    · exact (processDocsFS_never_panics c bs docs _ s h2).elim
+    · exact finishModel_only_panic_sites c d0 s h2
+  · exact absurd h (finishLoad_never_panics _ _ _)
+
+theorem loadFS_skipValidation_never_panics (c : Cfg) (bs : List BaseFile) (docs : List Val.KVs) (s : String)
+    (hv : c.opts.skipValidation = true) : loadFS c bs docs ≠ .panic s := by
+  intro h
+  have h2 := (loadFS_panic_origin c bs docs s h).1
+  rw [hv] at h2; cases h2
+
+/-- same outcome up to the NAME of the failing stage (the wrapper keeps the stage of an error raised inside a referenced
+file; the integrator's `ofExtends` calls every extends-time error `extends`) -/
+def SameUpToStage {α : Type} : Pipeline.Out α → Pipeline.Out α → Prop
+  | .ok a, .ok b => a = b
+  | .err _, .err _ => True
+  | .panic s, .panic t => s = t
+  | _, _ => False
+
+theorem SameUpToStage.bind {α β : Type} {x y : Pipeline.Out α} (f : α → Pipeline.Out β) (hf : ∀ a, SameUpToStage (f a) (f a))
+    (h : SameUpToStage x y) : SameUpToStage (x.bind f) (y.bind f) := by
+  cases x <;> cases y <;> simp_all [SameUpToStage, Out.bind]
+
+theorem SameUpToStage.rfl' {α : Type} (x : Pipeline.Out α) : SameUpToStage x x := by
+  cases x <;> simp [SameUpToStage]
+
+theorem processDocFS_nil (c : Cfg) (dict : Val) (d : Val.KVs) :
+    SameUpToStage (processDocFS c [] dict d) (processDoc c dict d) := by
+  unfold processDocFS processDoc
+  cases interpStage c d with
+  | err e => simp [Out.bind, SameUpToStage]
+  | panic t => simp [Out.bind, SameUpToStage]
+  | ok cfg =>
+    simp only [Out.bind]
+    refine SameUpToStage.bind _ (fun a => SameUpToStage.rfl' _) ?_
+    unfold extendsStageFS extendsStage
+    have hfs : fsOf c [] = [] := rfl
+    rw [hfs]
+    split
+    · simp [SameUpToStage]
+    · cases Extends.applyExtends (Extends.realEnv c.mainFile []) cfg <;> simp [ofExtendsFS, ofExtends, SameUpToStage]
+
+theorem processDocsFS_nil (c : Cfg) : ∀ (docs : List Val.KVs) (dict : Val),
+    SameUpToStage (processDocsFS c [] dict docs) (processDocs c dict docs)
+  | [], _ => by simp [processDocsFS, processDocs, SameUpToStage]
+  | d :: r, dict => by
+    have h := processDocFS_nil c dict d
+    unfold processDocsFS processDocs
+    cases h1 : processDocFS c [] dict d <;> cases h2 : processDoc c dict d <;>
+      simp_all [SameUpToStage]
+    exact processDocsFS_nil c r _
+
+/-- the wrapper is conservative: with no other file on disk it is the integrator's `Pipeline.load` — same model, same
+panic site, an error exactly when that one has an error -/
+theorem loadFS_nil_same_as_load (c : Cfg) (docs : List Val.KVs) : SameUpToStage (loadFS c [] docs) (load c docs) := by
+  unfold loadFS load loadYamlModelFS loadYamlModel
+  split
+  · simp [SameUpToStage]
+  · exact SameUpToStage.bind _ (fun a => SameUpToStage.rfl' _)
+      (SameUpToStage.bind _ (fun a => SameUpToStage.rfl' _) (processDocsFS_nil c docs _))
+
+end FS
+
 /-- **the glue is the source**: the stage calls of `loadYamlFile` (with its closure `processRawYaml`), `loadYamlModel`,
 `load`, `loadModelWithContext` and `ResolveEnvironment` — in source order, each with the option tests that guard it,
 regenerated from loader/loader.go and loader/environment.go on every run — are the skeleton `Model/Pipeline.lean`
@@ -285,5 +443,25 @@ does (`keyValueIndexer` rejects the non-string item): the composed model returns
 `Canonical` stage model alone has on this tree (`Props/C01Pipeline.lean`) -/
 example : (load { exampleCfg with opts := { skipValidation := true } }
     [[("services", .map [("a", .map [("build", .map [("additional_contexts", .seq [.int 1])])])])]]).stage = "err:unicity" := by decide +kernel
+
+/-- a reference to a file that is not there is an ERROR of the extends stage (the property's "missing file" clause for
+`extends.file`, on the composed function, end to end) … -/
+example : (CV.C01PipeFS.loadFS { exampleCfg with opts := { skipExtends := false } } []
+    [[("services", .map [("a", .map [("extends", .map [("file", .str "base.yaml"), ("service", .str "b")])])])]]).stage
+    = "err:extends" := by decide +kernel
+
+
+/-! … a file that is there is read, sent through the per-document pipeline and merged (non-vacuity of `loadFS_panic_origin`:
+the composed function does reach the cross-file branch and loads) … -/
+#guard (CV.C01PipeFS.loadFS { exampleCfg with opts := { skipExtends := false } }
+    [⟨"base.yaml", ".", [[("services", .map [("b", .map [("image", .str "x"), ("build", .str "./ctx")])])]]⟩]
+    [[("services", .map [("a", .map [("extends", .map [("file", .str "base.yaml"), ("service", .str "b")])])])]]).stage == "ok"
+/-! … and a file that is there but lacks the service, or does not go through its own pipeline, is an error as well -/
+#guard (CV.C01PipeFS.loadFS { exampleCfg with opts := { skipExtends := false } }
+    [⟨"base.yaml", ".", [[("services", .map [("c", .map [("image", .str "x")])])]]⟩]
+    [[("services", .map [("a", .map [("extends", .map [("file", .str "base.yaml"), ("service", .str "b")])])])]]).stage == "err:extends"
+#guard (CV.C01PipeFS.loadFS { exampleCfg with opts := { skipExtends := false } }
+    [⟨"base.yaml", ".", [[("services", .map [("b", .map [("image", .str "${")])])]]⟩]
+    [[("services", .map [("a", .map [("extends", .map [("file", .str "base.yaml"), ("service", .str "b")])])])]]).stage == "err:interpolate"
 
 end CV.C01.Whole
